@@ -36,7 +36,7 @@ CLAIMS = {
  "C16": ("TLC checks the transfer-fee contracts on a complete toy domain (MC_TransferFee) + evaluates ExclOK/InclOK on recorded calls of the Anchor and Pinocchio functions (boundary grid, "
          "both epoch schedules, fee extension at different TLV positions) + trace validation of swap_v2 / increase / decrease v2 on transfer-fee pools where the real Token-2022 "
          "processor withholds the fee (vault receives >= curve amount, smallest request, thresholds on actual amounts, event fields)",
-         "by-token-amounts / reposition / two-hop with transfer fees are exercised by the histories but only their common invariants (C01-style) are checked, not the per-transfer contract", "4 C16"),
+         "two-hop swaps with transfer fees are covered through C17 (equal to the two single swaps, each of which is held to the per-transfer contract when run as swap_v2) rather than by a predicate of their own", "4 C16"),
  "C17": ("trace validation with a differential oracle stated by the spec (TwoHop = Swap1 . Swap2 with in2 = out1): every recorded two-hop (v1, v2; 4 direction combinations; both modes; "
          "limits; thresholds realised +-1; invalid pool pairs) is compared, account by account, with its two single swaps executed on a copy of the bank; failure reasons are forced",
          "transfer-fee intermediate mints are not part of the equality claim (the two-hop moves vault to vault)", "4 C17"),
@@ -69,7 +69,7 @@ CLAIMS = {
          "the SDK crate is compiled natively with a local shim of ethnum::U256 (the real ethnum crate is not in the offline registry; the shim mirrors its documented semantics incl. checked_shl); "
          "the TypeScript SDK's WASM build of the same crate is not executed; increase/decrease liquidity quotes are covered through try_get_token_estimates_from_liquidity only", "4 C20"),
  "C08": ("trace validation: user/vault balance deltas of every recorded increase/decrease (Pinocchio v1+v2) equal the spec's exact TokenDeltas "
-         "(up on deposit, down on withdrawal) and respect max/min; toy instance exercises the same TokenDeltas definition", "as C01", "4 C08"),
+         "(up on deposit, down on withdrawal) and respect max/min; increase-by-token-amounts adds the largest liquidity whose cost fits both maxima; reposition moves exactly new-range cost minus old-range proceeds; toy instance exercises the same TokenDeltas definition", "as C01", "4 C08"),
 }
 TECH = "explicit TLA+ specification checked with TLC: exhaustive toy-scale model checking + trace validation of recorded executions of the real program"
 checks = []
